@@ -745,14 +745,15 @@ class C06Check(PoolCheckBase):
     def generate(self, rng: SimRng):
         g = rng.fork("kind")
         r = g.random()
-        if r < 0.7:
+        if r < 0.62:
             key = pick_entry(rng.fork("entry"))
             sc = gen_pool_scenario(rng, key, "C06", max_n=16)
             sc["workload"] = "pool"
             sc["prefit"] = False
             sc["return_utilities"] = True
             sc["max_cycles"] = g.pick([1, 2, 4])
-        elif r < 0.78:
+            sc["cand_mode"] = g.pick(["none", "none", "idx", "rows"]) if R.ENTRIES[key]["flags"].get("rows", True) else g.pick(["none", "idx"])
+        elif r < 0.70:
             from . import crowdsim as CS
 
             sc = CS.C07Check().generate(rng.fork("crowd"))
@@ -762,7 +763,7 @@ class C06Check(PoolCheckBase):
             sc["cycles"] = sc["cycles"][:3]
             if g.chance(0.4):
                 sc["seed"] = {"rs": sc["seed"]}
-        elif r < 0.88:
+        elif r < 0.87:
             from . import streamsim as S
 
             c3 = S.C03Check()
@@ -771,6 +772,9 @@ class C06Check(PoolCheckBase):
             sc["engine"] = "poolsim"
             sc["mode"] = "C06"
             sc["workload"] = "stream"
+            sc["warmup_update"] = g.chance(0.5)
+            if g.chance(0.3) and "random_state" in sc["subject"]["params"]:
+                sc["subject"]["params"]["random_state"] = 0  # a seed like any other, but falsy
         else:
             sc = self._gen_estimator(rng.fork("est"))
         f = rng.fork("actor")
@@ -779,11 +783,14 @@ class C06Check(PoolCheckBase):
         return sc
 
     def _gen_estimator(self, g: SimRng):
-        name = g.pick(["pwc", "pwc_g1", "gnb", "lr", "mixture", "rf_ens", "nic", "nwr", "lin", "tree"])
+        name = g.pick(["pwc", "pwc_g1", "gnb", "lr", "mixture", "rf_ens", "nic", "nwr", "lin", "tree", "dtc_cost", "pwc_cost", "knn_cost", "dtc_cost"])
         task = "reg" if name in ("nic", "nwr", "lin", "tree") else "clf"
         n = g.pick([4, 8, 15])
-        X, yt = R.make_pool(g, n, g.pick([1, 2]), task, g.pick(POOL_KINDS))
+        X, yt = R.make_pool(g, n, g.pick([1, 2]), task, g.pick(POOL_KINDS) if not name.endswith("_cost") else "duplicates")
         y = [float(v) if g.chance(0.7) else None for v in yt]
+        if name.endswith("_cost"):
+            # duplicated points that carry both labels: probabilities (and expected costs) tie exactly
+            y = [float(i % 2) for i in range(n)]
         return {"engine": "poolsim", "mode": "C06", "workload": "estimator", "model": name, "model_seed": g.randrange(0, 100), "classes": [0, 1], "X": X.tolist(), "y": y, "Xq": np.round(g.np("q").uniform(-2, 2, (g.pick([1, 5]), len(X[0]))), 3).tolist(), "task": task}
 
     # ---- worlds
@@ -801,8 +808,14 @@ class C06Check(PoolCheckBase):
             st0 = np.random.get_state()[1].copy() if consume_probe else None
             pos0 = np.random.get_state()[2] if consume_probe else None
             d0 = actor.during
+            extra = {}
+            unl = np.where(np.isnan(y))[0]
+            if sc.get("cand_mode") == "idx":
+                extra["candidates"] = unl.copy()
+            elif sc.get("cand_mode") == "rows":
+                extra["candidates"] = w.X[unl].copy()
             try:
-                res = w.call(y, sc["batch_size"], return_utilities=True)
+                res = w.call(y, sc["batch_size"], return_utilities=True, **extra)
             except Exception as ex:
                 record.append(("query", cyc, {"exc": type(ex).__name__}))
                 return
@@ -816,12 +829,14 @@ class C06Check(PoolCheckBase):
             # the same call repeated on the same object
             actor.before_call(ctx)
             try:
-                res2 = w.call(y, sc["batch_size"], return_utilities=True)
+                res2 = w.call(y, sc["batch_size"], return_utilities=True, **extra)
                 record.append(("repeat", cyc, (np.asarray(res2[0]).ravel(), np.asarray(res2[1], dtype=float))))
             except Exception as ex:
                 record.append(("repeat", cyc, {"exc": type(ex).__name__}))
             try:
                 ii = idx.astype(int)
+                if sc.get("cand_mode") == "rows":
+                    ii = unl[ii[(ii >= 0) & (ii < len(unl))]]
                 ii = ii[(ii >= 0) & (ii < len(y))]
                 y[ii] = oracle_answer(sc, ii, revealed)
                 revealed += len(ii)
@@ -876,7 +891,20 @@ class C06Check(PoolCheckBase):
         actor = Actor(plan)
         drv = S.Driver(sc["subject"], sc["clf"], sc["X"], sc["y"])
         pos = 0
+        if sc.get("warmup_update") and len(sc["chunks"]) > 1:
+            # legal protocol: update may be called before the first query (already observed, unqueried instances)
+            c0 = sc["chunks"][0]
+            rows = drv.rows(0, c0)
+            actor.before_call(ctx)
+            try:
+                drv.update_rows(rows, [], np.zeros(c0))
+            except Exception as ex:
+                record.append(("error", -1, {"exc": type(ex).__name__}))
+                return
+            pos = c0
         for k, c in enumerate(sc["chunks"]):
+            if sc.get("warmup_update") and len(sc["chunks"]) > 1 and k == 0:
+                continue
             rows = drv.rows(pos, pos + c)
             actor.before_call(ctx)
             try:
